@@ -146,6 +146,17 @@ func run(rt *rapid.T) {
 			rt.Fatalf("HARNESS: preparing a used receiver: %v", err)
 		}
 		ev.Class("receiver-used-before", 1)
+	} else if len(req) >= 2 && gen.Chance(rt, 25, "sameroot") {
+		// the receiver already holds a narrower export of the SAME source state (same root hash), has taken a speculative
+		// update whose root was never read, and now gets the full export
+		if nd, err := src.T.GetPath(req[:1]); err == nil && part.Deserialize(nd) == nil {
+			if _, live := src.Model[string(req[0])]; live && gen.Chance(rt, 60, "speculative") {
+				_ = part.Update(req[0], []byte("speculative"), 3)
+			}
+			ev.Class("receiver-holds-narrower-export-of-the-same-state", 1)
+		} else {
+			part = wmpt.New(nil, nil)
+		}
 	}
 	if err := part.Deserialize(data); err != nil {
 		rt.Fatalf("Deserialize(GetPath): %v\n%s", err, desc())
